@@ -36,7 +36,11 @@ Inductive case :=
 | CFind (t : ttype) (c : icfg) (fmax : N) (v : list N) (toks : list (list N)) (qs : list qobs)
 (* real ParseSeqQL on `f:<literal>` where the literal unquotes to s (wildcards = U+E000), field of
    type t, case sensitivity sens: the literals returned (None = error) *)
-| CQuery (t : ttype) (sens : bool) (s : list N) (lits : option (list (list term))).
+| CQuery (t : ttype) (sens : bool) (s : list N) (lits : option (list (list term)))
+(* the real bulk indexer emitted `_exists_:title` for a present mapped field; the real parser (running
+   case-insensitively) on `_exists_:<literal of title>` returned lits, and the real matcher's verdict
+   over the document's _exists_ tokens *)
+| CExists (title : list N) (lits : option (list (list term))) (found : bool).
 
 Definition q_str (q : qobs) := fst (fst q).
 Definition q_lits (q : qobs) := snd (fst q).
@@ -54,6 +58,10 @@ Definition case_agrees (c : case) : bool :=
               | None => negb (q_found q)
               end) qs
   | CQuery t sens s lits => option_eqb lits_eqb (m_query t sens s) lits
+  | CExists title lits found =>
+      (* `_exists_` is a keyword field searched case-sensitively whatever the configuration *)
+      option_eqb lits_eqb (m_query TyKeyword true title) lits
+      && match lits with Some ls => implb (query_finds ls [title]) found | None => negb found end
   end.
 
 (* implementation output satisfies the property (independent of the model's tokenizers):
@@ -73,6 +81,8 @@ Definition case_spec_ok (c : case) : bool :=
                              | Some ls => existsb (fun l => lit_matches l tok) ls
                              | None => false end) qs) toks
   | CQuery _ _ _ _ => true
+  | CExists title lits found =>
+      found && match lits with Some ls => query_finds ls [title] | None => false end
   end.
 
 Definition diff_indices (l : list case) : list nat := bad_indices (fun c => negb (case_agrees c)) l.
